@@ -391,7 +391,37 @@ func ParamCorpus(dir string) []CorpusEntry {
 		"  /q:\n    parameters: [" + p("query", "page", "integer", "int32", false) + ", " + p("header", "X-Trace", "string", "", false) + "]\n" +
 		"    get: {parameters: [" + p("query", "page", "integer", "int64", true) + ", " + p("query", "f32", "number", "float", false) + ", " + p("query", "f64", "number", "", true) + ", " + p("query", "ok", "boolean", "", false) + ", " + p("query", "at", "string", "date-time", false) + ", " + arr("query", "ids", "integer", "int64") + ", " + arr("query", "ratios", "number", "float") + ", " + arr("query", "names", "string", "") + ", " + p("header", "X-Count", "integer", "", true) + ", " + p("header", "X-Ratio", "number", "float", false) + ", " + p("header", "X-When", "string", "date-time", false) + "], responses: {default: {description: d}}}\n" +
 		"    post: {responses: {default: {description: d}}}\n"
+	spec3 := specHead + `paths:
+  /r/{id}/{kind}:
+    parameters:
+    - {in: path, name: id, required: true, schema: {$ref: '#/components/schemas/ID'}}
+    - {$ref: '#/components/parameters/KindParam'}
+    get:
+      parameters:
+      - {in: query, name: page, schema: {$ref: '#/components/schemas/Page'}}
+      - {in: query, name: size, required: true, schema: {$ref: '#/components/schemas/Page'}}
+      - {in: query, name: q, schema: {$ref: '#/components/schemas/Name'}}
+      - {in: query, name: flag, schema: {$ref: '#/components/schemas/Flag'}}
+      - {in: query, name: ratio, schema: {$ref: '#/components/schemas/Ratio'}}
+      - {in: header, name: X-Name, schema: {$ref: '#/components/schemas/Name'}}
+      - {in: header, name: X-Page, required: true, schema: {$ref: '#/components/schemas/Page'}}
+      - {$ref: '#/components/parameters/TraceHeader'}
+      - {$ref: '#/components/parameters/LimitQuery'}
+      responses: {default: {description: d}}
+components:
+  schemas:
+    ID: {type: integer, format: int64}
+    Page: {type: integer, format: int32}
+    Name: {type: string}
+    Flag: {type: boolean}
+    Ratio: {type: number, format: double}
+  parameters:
+    KindParam: {in: path, name: kind, required: true, schema: {$ref: '#/components/schemas/Name'}}
+    TraceHeader: {in: header, name: X-Trace, schema: {type: string}}
+    LimitQuery: {in: query, name: limit, schema: {$ref: '#/components/schemas/Page'}}
+`
 	return []CorpusEntry{
+		{Name: "param-schemarefs", Spec: writeSpec(filepath.Join(dir, "param-schemarefs"), "openapi", spec3), Group: "param-matrix", Client: true},
 		{Name: "param-pathorder", Spec: writeSpec(filepath.Join(dir, "param-pathorder"), "openapi", spec1), Group: "param-matrix", Client: true},
 		{Name: "param-types", Spec: writeSpec(filepath.Join(dir, "param-types"), "openapi", spec2), Group: "param-matrix", Client: true},
 	}
